@@ -1,11 +1,14 @@
 import CqlVerif.Spec.GateSpec
+import CqlVerif.Spec.GateShape
+import CqlVerif.Gen.GateFacts
 /-!
 # C13 — Handshake, version negotiation and compression selection are answered locally
 
 Model: `Model/Front.lean`. Tie: the `gate` stream probes the real proxy with one fresh
 connection per (version byte, opcode, configured maximum) — all 256 opcodes for every known
 version in both directions and every unknown version byte in the thorough tier — and with
-handshake sequences, and compares with `Front.gate` / `Front.startup`.
+handshake sequences, and compares with `Front.gate` / `Front.startup`; the `gate` translator reads the shape of
+`client.Receive` off /repo's current source (`Gen/GateFacts.lean`, regenerated on every run).
 -/
 namespace CqlVerif.C13
 open CqlVerif.Front CqlVerif.GateSpec
@@ -67,5 +70,9 @@ theorem supported_compression_switches (c : Conn) (v : String)
 /-- non-vacuity -/
 example : gate 4 ⟨5, 1, true⟩ = .perrVersion ∧ gate 4 ⟨65, 5, true⟩ = .perrVersion ∧ gate 66 ⟨65, 5, true⟩ = .supported ∧
     gate 4 ⟨2, 1, true⟩ = .perrVersion ∧ gate 4 ⟨6, 1, true⟩ = .closed ∧ gate 4 ⟨4, 7, true⟩ = .routed := by decide
+
+/-- **gate_shape_ok** — the facts read off /repo's current `client.Receive` (order of the steps, the gate's condition
+and body, what every case of the dispatch does) are the ones Model/Front.lean models (regenerated on every run) -/
+theorem gate_shape_ok : Gen.GateFacts.facts = GateShape.expected := by decide +kernel
 
 end CqlVerif.C13
